@@ -123,6 +123,35 @@ def dyadic_model(c, prop_neg, scale=64, timeout_ms=3000):
         s.set("timeout", c.timeout_ms)
 
 
+def exact_model(c, neg, timeout_ms=15000):
+    s = z3.Solver()
+    s.set("timeout", timeout_ms)
+    memo = {}
+    try:
+        for e in c.pc:
+            s.add(core.exactify(e, memo))
+        if neg is not None:
+            s.add(core.exactify(neg, memo))
+        # prefer exactly representable inputs
+        reals = []
+        for v in getattr(c, "inputs", {}).values():
+            _collect_reals(v, reals)
+        s.push()
+        for i, r in enumerate(reals):
+            k = z3.Int(f"dy!{i}")
+            s.add(r * 16 == z3.ToReal(k), k >= -16 * 16, k <= 16 * 16)
+        c.stats.queries += 1
+        if s.check() == z3.sat:
+            return s.model()
+        s.pop()
+        c.stats.queries += 1
+        if s.check() == z3.sat:
+            return s.model()
+    except z3.Z3Exception:
+        return None
+    return None
+
+
 def _collect_reals(v, out):
     if isinstance(v, arrays.SymNd):
         for x in arrays.raw(v).flat:
@@ -169,10 +198,13 @@ def _prove(self, prop, label, info=None):
         p = prop.e if isinstance(prop, core.SymBool) else prop
         neg = None if core._isc(p) else z3.Not(p)
         m = None
-        try:
-            m = dyadic_model(self, neg)
-        except z3.Z3Exception:
-            m = None
+        if self.product_abstraction:
+            m = exact_model(self, neg)      # a model of the un-abstracted formula, if z3 finds one quickly
+        if m is None:
+            try:
+                m = dyadic_model(self, neg)
+            except z3.Z3Exception:
+                m = None
         if m is None:
             m = cex.model
         cex.inputs = concretize(getattr(self, "inputs", {}), m)
@@ -741,13 +773,21 @@ def dual_harness(name, scenario, configs, units, **kw):
         last = "not reproduced"
         for inp in tries:
             d = Dual(None, inp)
+            shown = {k: v for k, v in inp.items() if not k.startswith("__")}
             try:
                 scenario(d, **params)
-            except Exception as e:  # the scenario itself reports exceptions of the code under test as obligations
+            except (ValueError, TypeError, IndexError, ZeroDivisionError, FloatingPointError, AttributeError,
+                    UnboundLocalError, KeyError) as e:
+                # the unpatched code fails on the solver's inputs where the property promises a result
+                return True, f"{name}{params}: the real code raised {e!r} (symbolic predicate {label}) with inputs {shown}"
+            except Exception as e:
                 last = f"replay raised {e!r}"
                 continue
             if label in d.violated:
-                shown = {k: v for k, v in inp.items() if not k.startswith("__")}
                 return True, f"{name}{params}: {label} {d.violated[label]} with inputs {shown}"
+            if d.violated:
+                other = sorted(d.violated)[0]
+                return True, (f"{name}{params}: symbolic predicate {label}; on the real code the same inputs violate {other} "
+                              f"{d.violated[other]}; inputs {shown}")
         return False, last
     return Harness(name, sym, replay, configs, units, **kw)
